@@ -578,6 +578,8 @@ class ContractSet:
             for e in api.REGISTRY:
                 if e["module"] != mn:
                     continue
+                if e["kind"] == "contract" and e.get("options", {}).get("gen") is not None:
+                    continue        # native-only (bounded stand-in): not part of the proof
                 if e["kind"] == "contract":
                     ci = mi.classes[e["name"]]
                     c = Contract(e, ci, world)
